@@ -2,7 +2,9 @@
 
 Three case families (all randomness from ctx.rng(family, c); a case replays from [c, family]):
 
-build    raw matrix -> from_numpy (three concrete classes) -> C15.roundtrip, C15.roundtrip.stored, C15.stats*
+build    raw matrix -> from_numpy (three concrete classes; also all-zero matrices and constructor-built objects with the
+         default location 0.0 / scale 1.0) -> C15.roundtrip, C15.roundtrip.stored, C15.stats*, C15.alias (the caller overwrites
+         every array handed out by unscale() and the summaries; the object's state must be untouched)
 ops      raw universe (80 taxa x up to 7 named traits) with id-encoded taxa labels and trait NAMES -> matrix -> history of
          1..10 operations: taxa-axis operations INTERLEAVED with trait-axis operations (select/delete/insert/adjoin/concat/
          append/incorp/remove/reorder/sort, axis-specific and axis-generic, copying and in place) and with persistence
@@ -51,6 +53,7 @@ RULE = ("seeded class-based raw matrices: 1-40 taxa (10%: up to 200), 1-4 traits
         "two earlier shallow (copy.copy / .copy()) or deep copies of the live matrix, continue on either the copy or the "
         "original, and re-judge every kept object (round trip and summaries against its own raw values) after every later "
         "step; trait-axis operations (about 25% of the steps; trait names deliberately not in lexical order, unique, 1-7 traits, "
+        "35% of the universes contain taxa that are missing for every trait, 3% are all-zero (location 0, scale 1 throughout), "
         "donor traits standardised on their own, given as matrices or raw arrays, sort with default and explicit keys, "
         "sort() with default axis) are interleaved and raw values are tracked per (taxon, trait name); 25% of the histories "
         "contain persistence round trips of the live matrix (to_hdf5/from_hdf5 by file name or caller-owned handle, root or "
@@ -86,6 +89,14 @@ ASSUME = [
     "persistence: pandas/CSV round trips go through the original scale (unscale=True) and are re-standardised by the reader; "
     "CSV is read with float_precision='round_trip' because pandas' default parser is not exact to float64 rounding "
     "(-0.0003102630688626493 reads back as -0.0003102630688626) - text precision of CSV stays with the persistence property C16",
+    "arrays returned by unscale(), tmax/tmin/tmean/trange/tstd/tvar (either flag), targmax/targmin and by the inplace=False / "
+    "copy=True forms of DenseScaledMatrix belong to the caller: they may be overwritten without changing the object (C15.alias "
+    "is judged behaviourally - state compared before/after the overwrite - and numpy.shares_memory only names the culprit)",
+    "a matrix built with the constructor vouches for its own location/scale (docstring): for the default location 0 / scale 1 "
+    "only the round trip (raw = stored values) and C15.alias are judged, not the summaries",
+    "pandas/CSV persistence is also driven with the label columns switched off on writer and reader (taxa_col=None, "
+    "taxa_grp_col=None): rows are then identified by position, the row count and order must be preserved (taxa missing for "
+    "every trait included) and the harness re-attaches the labels through the public setters before the history goes on",
     "tolerances: pbmon/oracle/bvscale.py (round trip 4*eps*(k+1)*(|raw|+2M) after k operations, summaries 1e-12*(k+1)*M, "
     "M = largest finite magnitude of the trait)",
 ]
@@ -1058,6 +1069,8 @@ def case_generic(ctx, c):
     good, first = cmp(un, 2)
     ctx.check("C15.generic", good, site + "unscale", "unscale(inplace=False) == scale*mat + location", "any",
               witness={"raw": Rf, "got": flat(un), "first_bad": first}, coords=coords)
+    ctx.check("C15.generic", not any(numpy.shares_memory(un, x) for x in (sm.mat, sm.location, sm.scale)), site + "unscale",
+              "unscale(inplace=False) returns an array of its own", "any", coords=coords)
     before = numpy.array(sm.mat, copy=True)
     try:
         out = sm.rescale(inplace=False)
@@ -1075,6 +1088,8 @@ def case_generic(ctx, c):
     good, first = cmp(sm.scale * sm.mat + sm.location, 3)
     ctx.check("C15.generic", good, site + "rescale", "after rescale(): scale*mat + location == raw", "any",
               witness={"raw": Rf, "location": sm.location, "scale": sm.scale, "first_bad": first}, coords=coords)
+    ctx.check("C15.generic", not any(numpy.shares_memory(out, x) for x in (sm.mat, sm.location, sm.scale)), site + "rescale",
+              "rescale(inplace=False) returns an array of its own", "any", coords=coords)
     ctx.check("C15.generic", numpy.array_equal(flat(out), flat(sm.mat), equal_nan=True), site + "rescale",
               "rescale(inplace=False) returns what rescale(inplace=True) stores", "any", coords=coords)
     S = flat(sm.mat)
@@ -1107,6 +1122,8 @@ def case_generic(ctx, c):
     except Exception as e:
         ctx.raised("DenseScaledMatrix.transform/untransform", e)
         return
+    ctx.check("C15.generic", not any(numpy.shares_memory(tr, x) for x in (sm.mat, sm.location, sm.scale)), site + "transform",
+              "transform(copy=True) returns an array of its own", "any", coords=coords)
     good, first = cmp(ut, 3)
     ctx.check("C15.generic", good, site + "untransform", "untransform(stored) == raw", "any",
               witness={"raw": Rf, "got": flat(ut), "first_bad": first}, coords=coords)
@@ -1124,7 +1141,7 @@ def case_generic(ctx, c):
               witness={"raw": Rf, "stored": flat(sm.mat), "location": sm.location, "scale": sm.scale, "first_bad": first}, coords=coords)
 
 
-FAMILIES = {"build": (case_build, 12000, 320000), "ops": (case_ops, 6400, 160000), "generic": (case_generic, 3600, 64000)}
+FAMILIES = {"build": (case_build, 10000, 320000), "ops": (case_ops, 5200, 144000), "generic": (case_generic, 3600, 64000)}
 
 
 def run_shard(ctx):
